@@ -33,6 +33,10 @@ GeneratorIdentity(o) ==
      Close(o.gc[i][j], o.g[i] + o.g[j], 3, 20)         \* phi(C(u,v)) = phi(u) + phi(v), 2e-5 relative + rounding
 GeneratorDecreasing(o) == \A i, j \in Interior(o) : i < j => o.g[j] <= o.g[i] + 1
 GeneratorAtOne(o) == Abs(o.g1) <= 1
+\* towards 0 the generator grows without bound: on the grid points within 1e-4 of 0 (1e-12, 1e-9, 1e-6, 1e-4; the point 0 itself is
+\* excluded) it is strictly decreasing wherever its values are representable (these points are orders of magnitude apart)
+GeneratorStrictTowardsZero(o) ==
+  \A i, j \in 2..N(o) : (i < j /\ o.G[j] <= o.S \div 10000 /\ o.g[i] # NAN /\ o.g[j] # NAN) => o.g[i] > o.g[j]
 RowsIndependent(o) == \A i \in DOMAIN o.rowwise : o.rowwise[i].a = o.rowwise[i].b
 
 TableProblems(o) ==
@@ -46,6 +50,7 @@ TableProblems(o) ==
   (IF ~GeneratorIdentity(o) THEN <<"generator-identity">> ELSE <<>>) \o
   (IF ~GeneratorDecreasing(o) THEN <<"generator-not-decreasing">> ELSE <<>>) \o
   (IF ~GeneratorAtOne(o) THEN <<"generator-at-one-not-zero">> ELSE <<>>) \o
+  (IF ~GeneratorStrictTowardsZero(o) THEN <<"generator-not-strictly-decreasing-towards-zero">> ELSE <<>>) \o
   (IF ~RowsIndependent(o) THEN <<"rows-of-a-batch-not-independent">> ELSE <<>>)
 
 \* the lower-left corner, magnified: grid points 0 .. 1e-6 and CDF values scaled by ZS = 1e14 (resolution 1e-14), so that
